@@ -443,7 +443,6 @@ class RunBundler:
 
         stream_bundle = await self._prepare_stream(name, {obj: self._describe_cache[obj]})
         self._unreplayed_streams.add(name)
-        compose_event = stream_bundle[1]
 
         def emit_event(readings: Optional[dict[str, Reading]] = None, *args, **kwargs):
             if readings is not None:
@@ -461,6 +460,9 @@ class RunBundler:
                     "passed to subscribe() was not called with Dict[str, Reading]"
                 )
             data, timestamps = _rearrange_into_parallel_dicts(readings)
+            # `configure` re-makes the descriptor of this stream: compose against the current one
+            bundle = self._descriptors.get(name)
+            compose_event = bundle.compose_event if bundle is not None else stream_bundle[1]
             doc = compose_event(
                 data=data,
                 timestamps=timestamps,
